@@ -59,22 +59,22 @@ package tacquito
 
 //@ func (v *Version) MarshalBinary() (res []byte, err error)
 //@   requires v != nil
-//@   ensures[C01,C02,C03] (err == nil) == valid.Version(*v)
+//@   ensures (err == nil) == valid.Version(*v)
 //@   ensures[C01,C03] err == nil ==> len(res) == 1 && res[0] == v.MajorVersion*16 + v.MinorVersion
 //@   ensures err != nil ==> res == nil
 
 //@ func (v *Version) UnmarshalBinary(data []byte) (err error)
 //@   requires v != nil && len(data) >= 1
 //@   modifies *v
-//@   ensures[C01,C04] err == nil && v.MajorVersion == data[0] div 16 && v.MinorVersion == data[0] mod 16
+//@   ensures err == nil && v.MajorVersion == data[0] div 16 && v.MinorVersion == data[0] mod 16
 
 //@ func (h *Header) Validate() (err error)
 //@   requires h != nil
-//@   ensures[C02,C04,C06] (err == nil) == valid.Header(*h)
+//@   ensures (err == nil) == valid.Header(*h)
 
 //@ func (h *Header) MarshalBinary() (res []byte, err error)
 //@   requires h != nil
-//@   ensures[C02] (err == nil) == valid.Header(*h)
+//@   ensures (err == nil) == valid.Header(*h)
 //@   ensures[C01] err == nil ==> wire.Header(*h, res)
 //@   ensures err != nil ==> res == nil
 //@   ensures fresh(res)
@@ -82,8 +82,8 @@ package tacquito
 //@ func (h *Header) UnmarshalBinary(data []byte) (err error)
 //@   requires h != nil
 //@   modifies *h
-//@   ensures[C04] (err == nil) == (len(data) >= 12 && valid.Header(*h))
-//@   ensures[C01,C03,C04,C06] len(data) >= 12 ==> h.Version.MajorVersion == data[0] div 16 && h.Version.MinorVersion == data[0] mod 16
+//@   ensures (err == nil) == (len(data) >= 12 && valid.Header(*h))
+//@   ensures len(data) >= 12 ==> h.Version.MajorVersion == data[0] div 16 && h.Version.MinorVersion == data[0] mod 16
 //@        && h.Type == data[1] && h.SeqNo == data[2] && h.SessionID == u32at(data, 4) && h.Length == u32at(data, 8)
 //@        && h.Flags == (data[2] == 2 ? data[3] - (data[3] div 4) mod 2 * 4 + 4 : data[3])
 //@   also
@@ -100,12 +100,12 @@ package tacquito
 
 //@ func (a *AuthenStart) Validate() (err error)
 //@   requires a != nil
-//@   ensures[C02,C04] (err == nil) == (valid.AuthenStart(*a) && fits.AuthenStart(*a))
+//@   ensures (err == nil) == (valid.AuthenStart(*a) && fits.AuthenStart(*a))
 //@   ensures[C19] typeOf(err) != *BadSecretErr
 
 //@ func (a *AuthenStart) MarshalBinary() (res []byte, err error)
 //@   requires a != nil
-//@   ensures[C02] (err == nil) == (valid.AuthenStart(*a) && fits.AuthenStart(*a))
+//@   ensures (err == nil) == (valid.AuthenStart(*a) && fits.AuthenStart(*a))
 //@   ensures[C01] err == nil ==> wire.AuthenStart(*a, res)
 //@   ensures err != nil ==> res == nil
 //@   ensures fresh(res)
@@ -114,7 +114,7 @@ package tacquito
 //@ func (a *AuthenStart) UnmarshalBinary(data []byte) (err error)
 //@   requires a != nil
 //@   modifies *a
-//@   ensures[C02,C04,C10] err == nil ==> valid.AuthenStart(*a) && fits.AuthenStart(*a)
+//@   ensures err == nil ==> valid.AuthenStart(*a) && fits.AuthenStart(*a)
 //@   ensures[C04] err == nil ==> inside(a.User, data) && inside(a.Port, data) && inside(a.RemAddr, data) && inside(a.Data, data)
 //@   ensures[C04] len(data) < 8 ==> err != nil
 //@   ensures[C19] len(data) < 8 ==> typeOf(err) != *BadSecretErr
@@ -132,12 +132,12 @@ package tacquito
 
 //@ func (a *AuthenReply) Validate() (err error)
 //@   requires a != nil
-//@   ensures[C02,C04] (err == nil) == (valid.AuthenReply(*a) && fits.AuthenReply(*a))
+//@   ensures (err == nil) == (valid.AuthenReply(*a) && fits.AuthenReply(*a))
 //@   ensures[C19] typeOf(err) != *BadSecretErr
 
 //@ func (a *AuthenReply) MarshalBinary() (res []byte, err error)
 //@   requires a != nil
-//@   ensures[C02] (err == nil) == (valid.AuthenReply(*a) && fits.AuthenReply(*a))
+//@   ensures (err == nil) == (valid.AuthenReply(*a) && fits.AuthenReply(*a))
 //@   ensures[C01] err == nil ==> wire.AuthenReply(*a, res)
 //@   ensures err != nil ==> res == nil
 //@   ensures fresh(res)
@@ -146,7 +146,7 @@ package tacquito
 //@ func (a *AuthenReply) UnmarshalBinary(data []byte) (err error)
 //@   requires a != nil
 //@   modifies *a
-//@   ensures[C02,C04] err == nil ==> valid.AuthenReply(*a) && fits.AuthenReply(*a)
+//@   ensures err == nil ==> valid.AuthenReply(*a) && fits.AuthenReply(*a)
 //@   ensures[C04] err == nil ==> inside(a.ServerMsg, data) && inside(a.Data, data)
 //@   ensures[C04] len(data) < 5 ==> err != nil
 //@   ensures[C19] len(data) < 5 ==> typeOf(err) != *BadSecretErr
@@ -159,12 +159,12 @@ package tacquito
 
 //@ func (a *AuthenContinue) Validate() (err error)
 //@   requires a != nil
-//@   ensures[C02,C04] (err == nil) == (valid.AuthenContinue(*a) && fits.AuthenContinue(*a))
+//@   ensures (err == nil) == (valid.AuthenContinue(*a) && fits.AuthenContinue(*a))
 //@   ensures[C19] typeOf(err) != *BadSecretErr
 
 //@ func (a *AuthenContinue) MarshalBinary() (res []byte, err error)
 //@   requires a != nil
-//@   ensures[C02] (err == nil) == (valid.AuthenContinue(*a) && fits.AuthenContinue(*a))
+//@   ensures (err == nil) == (valid.AuthenContinue(*a) && fits.AuthenContinue(*a))
 //@   ensures[C01] err == nil ==> wire.AuthenContinue(*a, res)
 //@   ensures err != nil ==> res == nil
 //@   ensures fresh(res)
@@ -173,7 +173,7 @@ package tacquito
 //@ func (a *AuthenContinue) UnmarshalBinary(data []byte) (err error)
 //@   requires a != nil
 //@   modifies *a
-//@   ensures[C02,C04] err == nil ==> valid.AuthenContinue(*a) && fits.AuthenContinue(*a)
+//@   ensures err == nil ==> valid.AuthenContinue(*a) && fits.AuthenContinue(*a)
 //@   ensures[C04] err == nil ==> inside(a.UserMessage, data) && inside(a.Data, data)
 //@   ensures[C04] len(data) < 5 ==> err != nil
 //@   ensures[C19] len(data) < 5 ==> typeOf(err) != *BadSecretErr
@@ -197,12 +197,12 @@ package tacquito
 
 //@ func (a *AcctReply) Validate() (err error)
 //@   requires a != nil
-//@   ensures[C02,C04] (err == nil) == (valid.AcctReply(*a) && fits.AcctReply(*a))
+//@   ensures (err == nil) == (valid.AcctReply(*a) && fits.AcctReply(*a))
 //@   ensures[C19] typeOf(err) != *BadSecretErr
 
 //@ func (a *AcctReply) MarshalBinary() (res []byte, err error)
 //@   requires a != nil
-//@   ensures[C02] (err == nil) == (valid.AcctReply(*a) && fits.AcctReply(*a))
+//@   ensures (err == nil) == (valid.AcctReply(*a) && fits.AcctReply(*a))
 //@   ensures[C01] err == nil ==> wire.AcctReply(*a, res)
 //@   ensures err != nil ==> res == nil
 //@   ensures fresh(res)
@@ -211,7 +211,7 @@ package tacquito
 //@ func (a *AcctReply) UnmarshalBinary(data []byte) (err error)
 //@   requires a != nil
 //@   modifies *a
-//@   ensures[C02,C04] err == nil ==> valid.AcctReply(*a) && fits.AcctReply(*a)
+//@   ensures err == nil ==> valid.AcctReply(*a) && fits.AcctReply(*a)
 //@   ensures[C04] err == nil ==> inside(a.ServerMsg, data) && inside(a.Data, data)
 //@   ensures[C04] len(data) < 5 ==> err != nil
 //@   ensures[C19] len(data) < 5 ==> typeOf(err) != *BadSecretErr
@@ -262,7 +262,7 @@ package tacquito
 
 //@ func (a *AuthorRequest) Validate() (err error)
 //@   requires a != nil
-//@   ensures[C02,C04] (err == nil) == (valid.AuthorRequest(*a) && fits.AuthorRequest(*a))
+//@   ensures (err == nil) == (valid.AuthorRequest(*a) && fits.AuthorRequest(*a))
 //@   ensures[C19] typeOf(err) != *BadSecretErr
 //@   loop 2 invariant -1 <= rangeindex && rangeindex < len(a.Args)
 //@   loop 2 invariant forall j int :: 0 <= j && j <= rangeindex ==> validArg(a.Args[j])
@@ -274,7 +274,7 @@ package tacquito
 
 //@ func (a *AuthorRequest) MarshalBinary() (res []byte, err error)
 //@   requires a != nil
-//@   ensures[C02] (err == nil) == (valid.AuthorRequest(*a) && fits.AuthorRequest(*a))
+//@   ensures (err == nil) == (valid.AuthorRequest(*a) && fits.AuthorRequest(*a))
 //@   ensures[C01] err == nil ==> wire.AuthorRequest(*a, res)
 //@   ensures err != nil ==> res == nil
 //@   ensures fresh(res)
@@ -301,7 +301,7 @@ package tacquito
 //@ func (a *AuthorRequest) UnmarshalBinary(data []byte) (err error)
 //@   requires a != nil
 //@   modifies *a
-//@   ensures[C02,C04] err == nil ==> valid.AuthorRequest(*a) && fits.AuthorRequest(*a)
+//@   ensures err == nil ==> valid.AuthorRequest(*a) && fits.AuthorRequest(*a)
 //@   ensures[C04] err == nil ==> inside(a.User, data) && inside(a.Port, data) && inside(a.RemAddr, data)
 //@        && (forall k int :: 0 <= k && k < len(a.Args) ==> inside(a.Args[k], data))
 //@   ensures[C04] len(data) < 8 ==> err != nil
@@ -341,7 +341,7 @@ package tacquito
 
 //@ func (a *AuthorReply) Validate() (err error)
 //@   requires a != nil
-//@   ensures[C02,C04] (err == nil) == (valid.AuthorReply(*a) && fits.AuthorReply(*a))
+//@   ensures (err == nil) == (valid.AuthorReply(*a) && fits.AuthorReply(*a))
 //@   ensures[C19] typeOf(err) != *BadSecretErr
 //@   loop 2 invariant -1 <= rangeindex && rangeindex < len(a.Args)
 //@   loop 2 invariant forall j int :: 0 <= j && j <= rangeindex ==> validArg(a.Args[j])
@@ -353,7 +353,7 @@ package tacquito
 
 //@ func (a *AuthorReply) MarshalBinary() (res []byte, err error)
 //@   requires a != nil
-//@   ensures[C02] (err == nil) == (valid.AuthorReply(*a) && fits.AuthorReply(*a))
+//@   ensures (err == nil) == (valid.AuthorReply(*a) && fits.AuthorReply(*a))
 //@   ensures[C01] err == nil ==> wire.AuthorReply(*a, res)
 //@   ensures err != nil ==> res == nil
 //@   ensures fresh(res)
@@ -381,7 +381,7 @@ package tacquito
 //@ func (a *AuthorReply) UnmarshalBinary(data []byte) (err error)
 //@   requires a != nil
 //@   modifies *a
-//@   ensures[C02,C04] err == nil ==> valid.AuthorReply(*a) && fits.AuthorReply(*a)
+//@   ensures err == nil ==> valid.AuthorReply(*a) && fits.AuthorReply(*a)
 //@   ensures[C04] err == nil ==> inside(a.ServerMsg, data) && inside(a.Data, data)
 //@        && (forall k int :: 0 <= k && k < len(a.Args) ==> inside(a.Args[k], data))
 //@   ensures[C04] len(data) < 6 ==> err != nil
@@ -423,7 +423,7 @@ package tacquito
 
 //@ func (a *AcctRequest) Validate() (err error)
 //@   requires a != nil
-//@   ensures[C02,C04] (err == nil) == (valid.AcctRequest(*a) && fits.AcctRequest(*a))
+//@   ensures (err == nil) == (valid.AcctRequest(*a) && fits.AcctRequest(*a))
 //@   ensures[C19] typeOf(err) != *BadSecretErr
 //@   loop 2 invariant -1 <= rangeindex && rangeindex < len(a.Args)
 //@   loop 2 invariant forall j int :: 0 <= j && j <= rangeindex ==> validAcctArg(a.Args[j])
@@ -435,7 +435,7 @@ package tacquito
 
 //@ func (a *AcctRequest) MarshalBinary() (res []byte, err error)
 //@   requires a != nil
-//@   ensures[C02] (err == nil) == (valid.AcctRequest(*a) && fits.AcctRequest(*a))
+//@   ensures (err == nil) == (valid.AcctRequest(*a) && fits.AcctRequest(*a))
 //@   ensures[C01] err == nil ==> wire.AcctRequest(*a, res)
 //@   ensures err != nil ==> res == nil
 //@   ensures fresh(res)
@@ -462,7 +462,7 @@ package tacquito
 //@ func (a *AcctRequest) UnmarshalBinary(data []byte) (err error)
 //@   requires a != nil
 //@   modifies *a
-//@   ensures[C02,C04] err == nil ==> valid.AcctRequest(*a) && fits.AcctRequest(*a)
+//@   ensures err == nil ==> valid.AcctRequest(*a) && fits.AcctRequest(*a)
 //@   ensures[C04] err == nil ==> inside(a.User, data) && inside(a.Port, data) && inside(a.RemAddr, data)
 //@        && (forall k int :: 0 <= k && k < len(a.Args) ==> inside(a.Args[k], data))
 //@   ensures[C04] len(data) < 9 ==> err != nil
